@@ -270,9 +270,9 @@ pub fn run(cx: &mut Ctx) {
     let k = alphabet.len() as u64;
     let total_exhaustive: u64 = 1 + k + k * k + k * k * k;
     // quick tier: lengths <= 2 completely, length 3 in a seed-chosen slice
-    let stride: u64 = if cx.thorough { 1 } else { 40 };
+    let stride: u64 = if cx.thorough { 1 } else { 12 };
     let offset = if cx.thorough { 0 } else { cx.seed % stride };
-    let n_random: u64 = if cx.thorough { 12_000 } else { 600 };
+    let n_random: u64 = if cx.thorough { 12_000 } else { 2_000 };
     let mut idx = 0u64;
     let mut enumerated = 0u64;
     while idx < total_exhaustive + n_random {
